@@ -4,9 +4,10 @@ import DustVerif.Model.Xcdr
     and the constructs each configuration (`Cfg`) is able to round-trip. -/
 namespace DustVerif.Xcdr
 
-/-- value range a primitive round-trips on: fits the width, BOOLEAN is 0/1, CHAR8 is ASCII (D63) -/
+/-- value range a primitive round-trips on: fits the width, BOOLEAN is 0/1, CHAR8 is ISO 8859-1 (0..255; D63 repaired:
+    it was ASCII only) -/
 def primOk (p : Prim) (n : Nat) : Bool :=
-  n < 256 ^ p.size && (p != .bool || n ≤ 1) && (p != .c8 || n < 128)
+  n < 256 ^ p.size && (p != .bool || n ≤ 1) && (p != .c8 || n < 256)
 
 /-- a UTF-16 code unit -/
 def unitOk (v : Val) : Bool :=
@@ -35,7 +36,7 @@ mutual
     | .struct .mutable _ => true
     | .struct .appendable ms => ver == .v2 || firstPos ver ms
     | .struct .final ms => firstPos ver ms
-    | .union _ _ => true
+    | .union _ _ _ => true
   def firstPos (ver : Ver) : Ms → Bool
     | .nil => false
     | .cons _ opt _ t _ => opt || sizePos ver t
@@ -55,10 +56,10 @@ mutual
     | .seq el, .list vs => 24 + sumNat (vs.map (maxSize el))
     | .arr el _, .list vs => 8 + sumNat (vs.map (maxSize el))
     | .struct _ ms, .struct fs => 24 + maxSizeMs ms fs
-    | .union _ bs, .struct fs =>
+    | .union _ _ bs, .struct fs =>
       match fs with
-      | [.num _, .num id, v] => 16 + maxSizeB bs id v
-      | _ => 16
+      | [.num _, .num id, v] => 24 + maxSizeB bs id v
+      | _ => 24
     | _, _ => 0
   def maxSizeB : Bs → Nat → Val → Nat
     | .cons id' _ _ t r, id, v => if id' == id then maxSize t v else maxSizeB r id v
@@ -101,12 +102,14 @@ mutual
        | .v2 => cfg.d47) &&
       decide (ms.lowIds.Nodup) && wfM cfg ver ms fs
     -- unions: a discriminator of a kind the decoder accepts, the branch the writer set is the one the discriminator
-    -- selects (D80: a discriminator that selects nothing is outside)
-    | .union disc bs, .struct fs =>
+    -- selects
+    | .union _ disc bs, .struct fs =>
       match fs with
       | [.num d, .num id, v] =>
         primOk disc d && discOk disc && (bs.firstIdx id).isSome && bs.selIdx (discI32 disc d) == bs.firstIdx id &&
         wfB cfg ver bs id v
+      -- no active member: the discriminator selects no branch (D80 repaired)
+      | [.num d] => primOk disc d && discOk disc && (bs.selIdx (discI32 disc d)).isNone
       | _ => false
     | _, _ => false
   def wfB (cfg : Cfg) (ver : Ver) : Bs → Nat → Val → Bool
@@ -148,7 +151,7 @@ mutual
     | .arr el _ => noMutable el
     | .struct .mutable _ => false
     | .struct _ ms => noMutableMs ms
-    | .union _ bs => noMutableB bs
+    | .union _ _ bs => noMutableB bs
     | _ => true
   def noMutableB : Bs → Bool
     | .nil => true
@@ -165,7 +168,7 @@ mutual
     | .seq el => shortIds ver el
     | .arr el _ => shortIds ver el
     | .struct x ms => shortIdsMs ver (x == .mutable) ms
-    | .union _ bs => shortIdsB ver bs
+    | .union _ _ bs => shortIdsB ver bs
     | _ => true
   def shortIdsB (ver : Ver) : Bs → Bool
     | .nil => true
